@@ -107,6 +107,8 @@ def gen(repo, config, verbose=False):
     """returns path of the fact file for (repo working tree, config)"""
     if config == "v047":
         return gen_v047(verbose)
+    if config == "fixtures":
+        return gen_fixture(verbose)
     if config not in CONFIGS:
         raise FactError(f"unknown config {config}")
     build_driver()
@@ -184,6 +186,48 @@ def _prune_old_facts(keep, limit=12):
     ds.sort(key=lambda d: os.path.getmtime(os.path.join(base, d)))
     for d in ds[:-limit] if len(ds) > limit else []:
         shutil.rmtree(os.path.join(base, d), ignore_errors=True)
+
+
+def gen_fixture(verbose=False):
+    """facts of the fixture crate (positive examples of the zero-expected rules)"""
+    build_driver()
+    fx = os.path.join(VERIF, "fixtures")
+    h = hashlib.sha256()
+    with open(os.path.join(fx, "src", "lib.rs"), "rb") as fh:
+        h.update(fh.read())
+    h.update(driver_hash().encode())
+    outdir = os.path.join(CACHE, "facts", "fixtures", h.hexdigest()[:16])
+    os.makedirs(outdir, exist_ok=True)
+    with open(os.path.join(CACHE, "gen-fixtures.lock"), "w") as lk:
+        fcntl.flock(lk, fcntl.LOCK_EX)
+        done = os.path.join(outdir, "DONE")
+        if os.path.exists(done):
+            fp = open(done).read().strip()
+            if os.path.exists(fp):
+                return fp
+        target = os.path.join(CACHE, "target", "fixtures")
+        _drop_fingerprints(target, "vfix-")
+        nonce = uuid.uuid4().hex
+        env = base_env()
+        env["RUSTFLAGS"] = BASE_FLAGS
+        env["RUSTC_WRAPPER"] = DRIVER
+        env["FACTGEN_OUT"] = outdir
+        env["FACTGEN_NONCE"] = nonce
+        env["FACTGEN_CONFIG"] = "fixtures"
+        env["FACTGEN_CRATES"] = "vfix"
+        env["CARGO_TARGET_DIR"] = target
+        r = subprocess.run(["cargo", "+nightly", "check", "--offline"], cwd=fx, env=env, capture_output=True, text=True)
+        if r.returncode != 0:
+            raise FactError("cargo check of the fixture crate failed:\n" + r.stderr[-4000:])
+        fp = os.path.join(outdir, "vfix-0.0.0.json")
+        if not os.path.exists(fp):
+            raise FactError("no fact file for the fixture crate")
+        with open(fp) as fh:
+            if nonce not in fh.read(400):
+                raise FactError("stale fixture fact file")
+        with open(done, "w") as fh:
+            fh.write(fp)
+        return fp
 
 
 def gen_v047(verbose=False):
